@@ -110,6 +110,7 @@ def run(ctx):
         _fieldcover(ctx, cfg, prog, mod)
         _fieldkeep(ctx, cfg, prog, mod)
         _sentinel(ctx, cfg, prog, mod)
+        _lookuperr(ctx, cfg, prog, mod)
         _gates(ctx, cfg, prog, mod)
     return ctx.finish(EXPLANATION)
 
@@ -338,6 +339,40 @@ def _visit_map(prog, adt):
         if b.kind != 'closure' and b.name == 'visit_map' and 'Visitor' in (b.impl_trait or ''):
             return b
     return None
+
+
+def _lookuperr(ctx, cfg, prog, mod):
+    """LOOKUPERR: while the reader re-links cells to vertices through the UUID tables, a failed lookup (a cell
+    without an entry in `cell_vertices`, a vertex UUID that is not among the vertices) must end in an error:
+    from the None edge of every map lookup in the Tds visitor neither an Ok exit nor the continuation of the
+    surrounding loop is reachable ("input that does not describe a consistent complex is rejected")."""
+    import flow
+    ctx.rule('LOOKUPERR', 'in the Tds reader a failed UUID lookup leads only to an error exit')
+    vm = _visit_map(prog, TDS)
+    if vm is None:
+        return
+    n = 0
+    for bb, t in vm.calls():
+        nm = (t.callee or t.resolved or '')
+        st = (t.func.const.get('selfty') or '') if t.func is not None and t.func.kind == 'k' else ''
+        if nm.rsplit('::', 1)[-1] != 'get' or 'HashMap' not in (nm + st):
+            continue
+        cf = flow.call_flow(vm, bb)
+        n += 1
+        if not cf.err_edges:
+            ctx.ob('LOOKUPERR', '%s|lookup%d' % (vm.q, n), cfg, False,
+                   'the result of the lookup at line %d is not tested for None' % t.line, site='%s:%d' % (vm.file, t.line))
+            continue
+        region = flow.reach_edges(vm, [d for (_, d) in cf.err_edges], avoid_edges=cf.ok_edges)
+        oks = [e['bb'] for e in flow.exit_assignments(vm) if e['cls'] == 'ok']
+        bad_ok = [x for x in oks if x in region]
+        loops_on = bb in region
+        ok = not bad_ok and not loops_on
+        ctx.ob('LOOKUPERR', '%s|lookup%d' % (vm.q, n), cfg, ok,
+               'None edge of the lookup reaches only error exits' if ok else
+               'from the None edge of the lookup at line %d %s is reachable: an unknown UUID is skipped instead of rejected' % (
+                   t.line, 'the Ok exit' if bad_ok else 'the next iteration'), site='%s:%d' % (vm.file, t.line))
+    ctx.floor('UUID-table lookups in the Tds reader', 2, n, cfg)
 
 
 def _gates(ctx, cfg, prog, mod):
